@@ -33,11 +33,35 @@ impl MatchFn {
     }
 }
 
-// TRUSTED leaves: the closures built for [:alnum:] .. [:xdigit:] call char / seshat predicates Verus does not model
-#[verifier::external_body]
-pub fn verif_ascii_leaf(a: &ClassAscii) -> (r: MatchFn)
-    ensures forall|c: char| #[trigger] r.sem()(c) == named_ascii(*a)(c)
-{ unimplemented!() }
-
 // TRUSTED: construction of the error value (`unsupported!(format!(..))`)
 #[verifier::external_body] pub fn verif_unsupported() -> ScnrError { unimplemented!() }
+
+// std contracts: the char predicates are the (uninterpreted) spec predicates of class_sem.rs
+pub assume_specification[ char::is_numeric ](c: char) -> (r: bool)
+    ensures r == spec_is_numeric(c);
+// (char::is_whitespace is specified by vstd: r == vstd::std_specs::char::is_white_space(c))
+// TRUSTED leaf: the closure of \w (`ch.is_alphanumeric() || ch.join_c() || ch.gc() == Gc::Pc || ch.gc() == Gc::Mn`) calls seshat's Unicode tables
+#[verifier::external_body]
+pub fn verif_perl_word_leaf() -> (r: MatchFn)
+    ensures forall|c: char| #[trigger] r.sem()(c) == spec_perl_word(c)
+{ unimplemented!() }
+pub assume_specification[ char::is_alphanumeric ](c: char) -> (r: bool)
+    ensures r == spec_is_alphanumeric(c);
+pub assume_specification[ char::is_alphabetic ](c: char) -> (r: bool)
+    ensures r == spec_is_alphabetic(c);
+pub assume_specification[ char::is_ascii ](c: &char) -> (r: bool)
+    ensures r == spec_is_ascii(*c);
+pub assume_specification[ char::is_ascii_whitespace ](c: &char) -> (r: bool)
+    ensures r == spec_is_ascii_whitespace(*c);
+pub assume_specification[ char::is_ascii_control ](c: &char) -> (r: bool)
+    ensures r == spec_is_ascii_control(*c);
+pub assume_specification[ char::is_ascii_graphic ](c: &char) -> (r: bool)
+    ensures r == spec_is_ascii_graphic(*c);
+pub assume_specification[ char::is_lowercase ](c: char) -> (r: bool)
+    ensures r == spec_is_lowercase(c);
+pub assume_specification[ char::is_ascii_punctuation ](c: &char) -> (r: bool)
+    ensures r == spec_is_ascii_punctuation(*c);
+pub assume_specification[ char::is_uppercase ](c: char) -> (r: bool)
+    ensures r == spec_is_uppercase(c);
+pub assume_specification[ char::is_ascii_hexdigit ](c: &char) -> (r: bool)
+    ensures r == spec_is_ascii_hexdigit(*c);
